@@ -125,6 +125,9 @@ func (d *driver) await(ch <-chan struct{}, phase string) bool {
 		if d.serial && d.sim.Link().HostIdle() {
 			limit = 3 * time.Second
 		}
+		if d.sc.Undrained && phase == "close" {
+			limit = 50 * time.Second
+		}
 		if time.Since(idle) > limit {
 			d.mu.Lock()
 			if d.out.stalled == "" {
@@ -644,6 +647,9 @@ func runScenario(sc scenario) (out outcome) {
 			d.violate("close-without-disconnect", "Close returned (sequence %d) but the TNC had not received DISCONNECT (sequence %d)", ret, discSeq)
 		}
 		d.count("close_disconnect_checked", 1)
+		if sc.Undrained {
+			d.count("close_with_undrained_tnc_buffer_checked", 1)
+		}
 	case "remote":
 		d.sim.RemoteDisconnect()
 	case "cut":
